@@ -147,23 +147,28 @@ def load_bounded(sess: Session):
     tmp = tempfile.mkdtemp(prefix='wnverif_ic_')
     try:
         import itertools
+        POSES = {1: [('n',), ('v',)], 2: [('n', 'n'), ('n', 'v')], 3: [('n', 'n', 'n'), ('a', 'r', 'v')]}
+        WEIGHTS = ['10.5', '1915712', '30.25']         # with and without a fraction, as in the distributed files
+        LAYOUTS = (('\n', True, ' ', ''), ('\n', False, ' ', ''), ('\r\n', True, ' ', ''), ('\r\n', False, ' ', ''),
+                   ('\n', True, ' ', ' '), ('\n', False, ' ', ' '), ('\n', True, '\t', ''), ('\n', True, '  ', '\t'))
         for n in (1, 2, 3):
+          for poses in POSES[n]:
             graph = tuple(() for _ in range(n))
+            # offsets of realistic size; the same offset under two parts of speech names two synsets
+            offsets = [1740, 1740 if n > 1 and poses[1] != poses[0] else 1930, 12345678][:n]
             for listed in itertools.chain.from_iterable(itertools.combinations(range(n), r) for r in range(n + 1)):
                 for roots in itertools.chain.from_iterable(itertools.combinations(listed, r) for r in range(len(listed) + 1)):
-                    nodes, w = build(graph)
+                    nodes, w = build(graph, list(poses))
                     w.lexicons = lambda: [type('L', (), {'id': 'x'})()]
-                    ids = {i: f'x-{i + 1:08}-n' for i in range(n)}
+                    ids = {i: f'x-{offsets[i]:08}-{poses[i]}' for i in range(n)}
                     for i, s in enumerate(nodes):
                         s.id = ids[i]
-                    for nl, final_nl, sep, trail in (('\n', True, ' ', ''), ('\n', False, ' ', ''), ('\r\n', True, ' ', ''),
-                                                     ('\r\n', False, ' ', ''), ('\n', True, ' ', ' '), ('\n', False, ' ', ' '),
-                                                     ('\n', True, '\t', ''), ('\n', True, '  ', '\t')):
+                    for nl, final_nl, sep, trail in LAYOUTS:
                         # line ends LF / CRLF, last record with or without a terminating line end; fields separated by
                         # any run of blanks, blanks at the end of a record mean nothing (a record is a ROOT record only
                         # when a third field is there)
                         path = os.path.join(tmp, 'ic.dat')
-                        lines = ['wnver::xyz'] + [f'{i + 1}n{sep}{10 * (i + 1)}.5{sep + "ROOT" if i in roots else ""}{trail}'
+                        lines = ['wnver::xyz'] + [f'{offsets[i]}{poses[i]}{sep}{WEIGHTS[i]}{sep + "ROOT" if i in roots else ""}{trail}'
                                                   for i in listed]
                         with open(path, 'w', newline='') as fh:
                             fh.write(nl.join(lines) + (nl if final_nl else ''))
@@ -171,24 +176,26 @@ def load_bounded(sess: Session):
                         try:
                             freq = wnic.load(path, w)
                         except Exception as exc:
-                            bad.append({'listed': listed, 'roots': roots, 'line end': repr(nl), 'final': final_nl,
-                                        'separator': repr(sep), 'trailing': repr(trail), 'error': repr(exc)})
+                            bad.append({'parts of speech': poses, 'listed': listed, 'roots': roots, 'line end': repr(nl),
+                                        'final': final_nl, 'separator': repr(sep), 'trailing': repr(trail),
+                                        'error': repr(exc)})
                             continue
                         want = {p: {None: 0.0} for p in 'nvar'}
                         for i in range(n):
-                            want['n'][ids[i]] = 0.0
+                            want[poses[i]][ids[i]] = 0.0
                         for i in listed:
-                            want['n'][ids[i]] = 10 * (i + 1) + 0.5
+                            want[poses[i]][ids[i]] = float(WEIGHTS[i])
                             if i in roots:
-                                want['n'][None] += 10 * (i + 1) + 0.5
+                                want[poses[i]][None] += float(WEIGHTS[i])
                         if freq != want:
-                            bad.append({'n': n, 'listed': listed, 'roots': roots, 'separator': repr(sep),
-                                        'trailing': repr(trail), 'got': freq, 'want': want})
+                            bad.append({'parts of speech': poses, 'listed': listed, 'roots': roots, 'separator': repr(sep),
+                                        'trailing': repr(trail), 'file': lines, 'got': freq, 'want': want})
     finally:
         import shutil
         shutil.rmtree(tmp, ignore_errors=True)
-    sess.add_bounded('wn.ic.load / _parse_ic_file', 'wordnets of 1..3 noun synsets x every subset listed in the file x '
-                     'every subset of those marked ROOT', cases, 'generated WordNet::Similarity files', not bad)
+    sess.add_bounded('wn.ic.load / _parse_ic_file', 'wordnets of 1..3 synsets (nouns only / mixed parts of speech, one offset under two parts of speech) x '
+                     'every subset listed in the file x every subset of those marked ROOT x 8 file layouts (LF / CRLF, '
+                     'final line end or not, blank runs, tabs, trailing blanks)', cases, 'generated WordNet::Similarity files', not bad)
     if bad:
         sess.violation_direct('wn.ic.load:structure', 'load() does not yield the same structure as compute(): every '
                               'synset of the wordnet present (0.0 when unlisted), listed weights, ROOT lines summed '
